@@ -10,4 +10,5 @@ ASSUMPTIONS = ["no code looks at the bytes, which is why byte values, sizes and 
 def run(rep, W, ctx):
     WR.S.s_sql_closed(rep, W)
     WR.c06(rep, W)
+    WR.H.c15_bound(rep, W)         # "every payload from one byte up to the size limit": the limit is 100 MiB, inclusive, in both upload handlers
     WR.S.s_failmodes(rep, W)     # "every payload from one byte up to the size limit": no size- or content-dependent failure below the HTTP layer
